@@ -114,11 +114,11 @@ def replay_part(ck, tier, part="single_step"):
     cfgs = S.make_configs(tier)
     m = 6
     if part == "single_step":
-        kset = [-5, -1, 0, 2] if tier == "quick" else [-7, -3, -1, 0, 1, 2, 6]
+        kset = [-5, -1, 0, 2] if tier == "quick" else [-6, -2, -1, 0, 3]
         r = S.explore(cfgs, kset, m, maxatt=3, maxsteps=1, timeout=1500)
     else:
         kset = [-5, -2, -1, 0, 1, 3]
-        n = 150 if tier == "quick" else 6000
+        n = 150 if tier == "quick" else 1500
         r = S.explore(cfgs, kset, m, maxatt=6, maxsteps=5, simulate=f"num={n}", depth=40, seed_=seed() + 7, timeout=1500)
     if r.violated:
         ck.violation("spec: Samplers invariants", {"violated": r.violated}, site="spec")
